@@ -1300,7 +1300,7 @@ def features(case, obs):
             "nanloc": f"{case.get('nobj', 1)}obj/{case.get('nanloc', 'all')}", "excls": _excls(case) if info["decider"] == "raise" else "-",
             "weights": ("with-zero" if case.get("weights") and 0 in case["weights"] else
                         "unequal" if case.get("weights") and len(set(case["weights"])) > 1 else "equal"),
-            "extras": ",".join(k for k in ("metadata", "explicit", "repeat", "mask", "unused_filter", "redirect") if case.get(k)) or "-",
+            **{k: bool(case.get(k)) for k in ("metadata", "explicit", "repeat", "mask", "unused_filter", "redirect")},
             "grad_all_failed_by_pmin": (f"rmin0={case['rmin'] == 0},allow_nan={case['allow_nan']}" if _grad_all_failed(case) else "-"),
             "batched_budget": bool(case.get("maxf") is not None and any(r["batch"] > 1 for r in case["script"]))}
 
